@@ -1279,3 +1279,106 @@ Proof.
     exfalso. revert E. vm_compute. discriminate.
   - vm_compute. repeat split.
 Qed.
+
+(* ==================================================================
+   The job script (repaired code: written aside and renamed): no job process ever reads an empty script,
+   so DONE in a scheduler implies the marker - for any number of schedulers
+   ================================================================== *)
+Definition Kscript (st : jobdir) : Prop :=
+  script st = SFull \/ (nprocs st = 0 /\ forall s, scheds st s <> SSpawn).
+Definition NoNop (st : jobdir) : Prop := forall p, procs st p <> PExit XNop.
+
+Lemma Kscript_step : forall st l st', Kscript st -> step st l st' -> Kscript st'.
+Proof.
+  intros st l st' H Hs. unfold Kscript in *.
+  destruct l; destr_step Hs; simp; try assumption; try (left; reflexivity);
+  try (destruct H as [H|[Hn Hq]]; [left; assumption|]);
+  try (exfalso; match goal with E : scheds st ?s = SSpawn |- _ => apply (Hq s); assumption end);
+  try (right; split; [assumption|]; intros q; upd_cases; try discriminate; try apply Hq;
+       try (destruct (done st); discriminate)).
+Qed.
+
+Lemma NoNop_step : forall st l st', I7 st -> Kscript st -> NoNop st -> step st l st' -> NoNop st'.
+Proof.
+  intros st l st' H7 HK H Hs q. destruct l; destr_step Hs; simp; try (apply H);
+  upd_cases; try discriminate; try (apply H); try (destruct (done st); discriminate);
+  try (specialize (H p); rewrite E in H; destruct c; congruence).
+  (* LExec with an empty script: impossible once a process exists *)
+  destruct HK as [HK|[Hn _]]; [congruence|].
+  rewrite (H7 p) in E by lia. discriminate.
+Qed.
+
+Definition InvS (st : jobdir) : Prop := Inv st /\ Kscript st /\ NoNop st.
+Lemma InvS_initial : forall st, initial st -> InvS st.
+Proof.
+  intros st Hi. split; [apply Inv_initial; assumption|].
+  destruct Hi as (Hp & Hn & Hs & _). split.
+  - right. split; [assumption|]. intros s. rewrite Hs. discriminate.
+  - intros p. rewrite Hp. discriminate.
+Qed.
+Lemma InvS_step : forall st l st', InvS st -> step st l st' -> InvS st'.
+Proof.
+  intros st l st' (HI & HK & HN) Hs. assert (H7 : I7 st) by (apply HI).
+  split; [eapply Inv_step; eauto|split; [eapply Kscript_step; eauto|eapply NoNop_step; eauto]].
+Qed.
+Lemma InvS_reachable : forall st, reachable st -> InvS st.
+Proof. intros st (st0 & tr & Hi & Hs). apply InvS_initial in Hi. induction Hs; eauto using InvS_step. Qed.
+
+Definition Truthful (st : jobdir) : Prop := forall s, scheds st s = SFinal VDone -> done st = true.
+Lemma Truthful_step : forall st l st', InvS st -> Truthful st -> step st l st' -> Truthful st'.
+Proof.
+  intros st l st' (HI & HK & HN) H Hs q Hq.
+  assert (Hm := done_mono _ _ _ Hs).
+  destruct HI as (_ & _ & _ & _ & _ & _ & _ & H8 & H9 & _).
+  destruct l; destr_step Hs; simp;
+  try (apply H; assumption);
+  upd_cases; try discriminate; try reflexivity; try assumption;
+  try (apply H; assumption); try (apply Hm; [reflexivity|apply (H q); assumption]);
+  try (apply (H9 s); rewrite E; reflexivity).
+  (* LWaitEnd: the exit code of the child *)
+  destruct c; simpl in Hq; try discriminate.
+  - apply (H8 p). rewrite E0. reflexivity.
+  - exfalso. apply (HN p). assumption.
+Qed.
+
+(* DONE in any scheduler implies the success marker (N schedulers, crashes, kills) *)
+Lemma done_truthful : forall st, reachable st -> forall s, scheds st s = SFinal VDone -> done st = true.
+Proof.
+  intros st (st0 & tr & Hi & Hs).
+  assert (H0 : InvS st0 /\ Truthful st0).
+  { split; [apply InvS_initial; assumption|]. destruct Hi as (_ & _ & Hsch & _). intros s Hq. rewrite Hsch in Hq. discriminate. }
+  clear Hi. induction Hs; [apply H0|]. apply IHHs. destruct H0 as [HI HT].
+  split; [eapply InvS_step; eauto|eapply Truthful_step; eauto].
+Qed.
+
+(* the pinned code (script rewritten in place): scheduler 1 empties the script while the process started by
+   scheduler 0 has not read it yet; the process exits 0 and scheduler 0 reports DONE - no marker, no body *)
+Definition tr_truncated : list label :=
+  [LSubmit 0; LTest1 0; LPid 0; LTest2 0; LReady 0; LSubmit 1; LTest1 1; LPid 1; LTest2 1; LReady 1] ++
+  [LSLock 0; LTrunc 0; LWrite 0; LSpawn 0; LCreatePid 0; LWritePid 0; LSUnlock 0] ++
+  [LSLock 1; LTrunc 1; LExec 0; LWaitEnd 0].
+Lemma truncated_script_refuted : exists st,
+  run_labels_prefix tr_truncated fresh = Some st /\
+  scheds st 0 = SFinal VDone /\ done st = false /\ body_runs st = 0 /\ procs st 0 = PExit XNop.
+Proof. eexists. split; [vm_compute; reflexivity|]. repeat split. Qed.
+(* the same schedule with the repaired code: the process reads a complete script *)
+Definition tr_truncated_ok : list label :=
+  [LSubmit 0; LTest1 0; LPid 0; LTest2 0; LReady 0; LSubmit 1; LTest1 1; LPid 1; LTest2 1; LReady 1] ++
+  [LSLock 0; LTrunc 0; LWrite 0; LSpawn 0; LCreatePid 0; LWritePid 0; LSUnlock 0] ++
+  [LSLock 1; LTrunc 1; LExec 0].
+Example truncated_script_repaired : exists st,
+  run_labels tr_truncated_ok fresh = Some st /\ procs st 0 = PLockW /\ scheds st 0 = SWait 0.
+Proof. eexists. split; [vm_compute; reflexivity|]. split; reflexivity. Qed.
+
+(* what is NOT true, and why C05_no_rerun_after_success is the statement that matters: a scheduler that made
+   both marker tests before the marker appeared still launches a process after it exists (aio_start does not
+   test the marker again under the job lock); the process finds the marker under the lock and skips the body *)
+Lemma launch_after_marker : exists st st',
+  reachable st /\ done st = true /\ scheds st 1 = SLock /\
+  steps st ([LSLock 1; LTrunc 1; LWrite 1; LSpawn 1; LCreatePid 1; LWritePid 1; LSUnlock 1] ++ tr_proc_skip 1 ++ [LWaitEnd 1]) st' /\
+  launches st = 1 /\ launches st' = 2 /\ body_runs st = 1 /\ body_runs st' = 1 /\ scheds st' 1 = SFinal VDone.
+Proof.
+  exists st_success. eexists. split; [apply no_rerun_nonvacuous|].
+  split; [vm_compute; reflexivity|]. split; [vm_compute; reflexivity|].
+  split; [apply run_labels_steps; vm_compute; reflexivity|]. vm_compute. repeat split.
+Qed.
